@@ -110,6 +110,15 @@ def witness_path(P, f, path, upto_block=None):
     return out[:40]
 
 
+def _added(prop):
+    try:
+        from .props.added import ADDED
+    except ImportError:
+        return ""
+    t = ADDED.get(prop)
+    return (" ADDED AFTER THE SECOND ROUND OF SEEDED CHANGES: " + t) if t else ""
+
+
 def load_known():
     if not os.path.exists(KNOWN_FILE):
         return []
@@ -171,7 +180,7 @@ def finish(ctx, meta):
         "seed": int(os.environ.get("VERIF_SEED", "0") or 0),
         "level": "other",
         "coverage": {
-            "explanation": meta["explanation"],
+            "explanation": meta["explanation"] + _added(prop),
             "not_decided": meta.get("not_decided", ""),
             "rule": "static analysis: one obligation per (rule, function, site role); an obligation is non-trivial when "
                     "discharging it needed a path/guard/dataflow argument rather than mere presence of an anchor",
